@@ -57,8 +57,8 @@ func VHC03Faults() {
 	type req struct{ pos, outLen int }
 	var reqs []req // output length whenever the reader is asked for more input
 	// how items and errors are packed into Read calls is part of the quantifier
-	ds := &vh.DocStream{Items: items, Mode: vh.Choose("mode", 4)}
-	ds.OnRead = func(item int) { reqs = append(reqs, req{item, out.Len()}) }
+	ds := &vh.DocStream{Items: items, Mode: vh.Choose("mode", 5)}
+	ds.OnRead = func(delivered int) { reqs = append(reqs, req{delivered, out.Len()}) }
 	_, err := lang.EvalProgram(c03Prog, []lang.InputFile{{Name: "in.json", Reader: ds}}, nil, &out, false)
 	kcls := legal(err, "EvalProgram")
 	vh.Reach("stream evaluated")
@@ -106,7 +106,7 @@ func VHC03Files() {
 			f, _, _ := c03Item("x", fk, "")
 			items = append(items, f)
 		}
-		return &vh.DocStream{Items: items, Mode: vh.Choose("mode", 4)}
+		return &vh.DocStream{Items: items, Mode: vh.Choose("mode", 5)}
 	}
 	var out vh.Out
 	files := []lang.InputFile{{Name: "one", Reader: mk("a", b1, faultIn == 1)}, {Name: "two", Reader: mk("c", b2, faultIn == 2)}}
